@@ -1,22 +1,45 @@
 (* C18 — Configuration loading is deterministic and independent of listing order.
-   Statements only; proofs in Proofs/CfgSortP.v, pre-fix regressions in Proofs/CfgPrefix.v.
-   Model: Model/Cfg.v ([to_config] = toConfig, [canon] = the sortedCopy of every kind,
-   [cfg_for] = config.For, [by_namespace] = poolsByNamespace, [reconcile] = the reconcilers).
-   [hsort srt] is hypothesis H-sort on Go's sort.Slice, [map_order iter] says that [iter]
-   enumerates a Go map in some order, [nodup_names] that names are unique within a kind.
-   [other] / [vcfg] are the parts of config.For outside the model (validate, peers, BFD
-   profiles, communities, validateConfig): arbitrary functions of the sorted snapshot. *)
+   Statements only; proofs in Proofs/CfgSortP.v, CfgFullP.v, CfgIsortP.v; pre-fix regressions in
+   Proofs/CfgPrefix.v.
+   Model: Model/Cfg.v ([canon] = the sortedCopy of every kind, [pools_for] = poolsFor,
+   [by_namespace] = poolsByNamespace, [reconcile] = the reconcilers' compare-and-skip) and
+   Model/CfgFull.v ([full_for] = config.For, [full_to_config] = toConfig).
+
+   WHAT IS AND IS NOT PROVED ABOUT ORDER.
+   * Listing order: a theorem (the sort by name makes every listed kind canonical).  Premises:
+     [hsort srt] (Go's sort returns a sorted permutation: PROVED for the exact model of Go's
+     insertion sort, which sort.Slice runs on at most 12 elements; a premise for pdqsort above),
+     [fnodup] / [nodup_names] (names unique within a kind).
+   * Go map iteration order is a parameter of the model in exactly TWO places:
+     poolsByNamespace and poolsByServiceSelector ([iter], premise [map_order]); the theorems
+     below show the result does not depend on it there (F2 was such a defect).
+   * Every OTHER loop over a Go map is written order-free BY CONSTRUCTION in the model
+     (forallb / existsb / map): setL2/setBGPAdvertisementsToPools' "all pools" loops over
+     ipPoolMap, validateBGPAdvPerPool's and isAggrLengthDifferent's loops over
+     cidrsPerAddresses, peersFor's duplicate test over the result map, validateConfig's walks
+     over Pools.ByName and Peers.  No theorem here can observe an order dependence in those;
+     that the Go code has none is checked only by the correspondence (model = code on every
+     generated case) together with the Go-side repetition (50x) / shuffle oracle.  The seeded
+     changes C18-1 and C18-4 were of that kind and were caught by that oracle, not by a proof.
+   * "Equal" is the model's equality (Model/CfgFull.v [fconfig_eqb] / Leibniz equality of the
+     model value): coarser than reflect.DeepEqual (a *net.IPNet is (family, base, length), nil =
+     empty, no pointer aliasing, the unexported cidrsPerAddresses is not part of it).  The gap
+     (F28, seeded C18-3: 4-byte vs 16-byte IP, consumer-side mutation) is covered by the Go
+     oracle on the real reconcilers only.
+   * Not modelled at all: matchExpressions selectors, validateDuplicateBGPAdvertisements
+     (vacuous for unique names), empty object names, which error is returned (only
+     accepted / refused is compared). *)
 From Coq Require Import List NArith Permutation Sorted.
 From Verif Require Import Model.Cfg Model.CfgFull Proofs.CfgSortP Proofs.CfgPrefix Proofs.CfgIsortP Proofs.CfgFullP.
 Local Open Scope N_scope.
 
+(* ---------------------------------------------------------------- the sort *)
 (* sortedCopy is canonical: two listings of the same objects are sorted to the same list *)
 Theorem C18_sorted_copy_canonical : forall srt, hsort srt ->
   forall A (key : A -> N) l l', NoDup (map key l) -> Permutation l l' -> srt A key l = srt A key l'.
 Proof. exact hsort_canonical. Qed.
 
-(* whichever algorithm sort.Slice runs (insertion sort up to 12 elements, pdqsort above),
-   the result is the same list *)
+(* whichever algorithm sort.Slice runs, the result is the same list *)
 Theorem C18_sort_algorithm_irrelevant : forall srt srt', hsort srt -> hsort srt' ->
   forall A (key : A -> N) l, NoDup (map key l) -> srt A key l = srt' A key l.
 Proof. exact hsort_unique. Qed.
@@ -25,13 +48,22 @@ Proof. exact hsort_unique. Qed.
 Theorem C18_model_sort_satisfies_hsort : hsort ksorter.
 Proof. exact ksorter_hsort. Qed.
 
-(* F1 (before fix 61831e8): the comparator read the unsorted source; exact model of Go's
-   insertion sort with that comparator *)
+(* H-sort holds for the exact index-based model of Go's insertionSort_func with sortedCopy's
+   repaired comparator ([go_sorter], Proofs/CfgIsortP.v), on every list.  Go runs that algorithm
+   only on slices of at most 12 elements; for longer ones (pdqsort) H-sort stays a premise. *)
+Theorem C18_go_insertion_sort_satisfies_hsort : hsort go_sorter.
+Proof. exact go_sorter_hsort. Qed.
+
+Theorem C18_go_insertion_sort_sorts : forall A (key : A -> N) (d : A) l,
+  Permutation (go_isort key d l) l /\ StronglySorted (kle key) (go_isort key d l).
+Proof. exact @go_isort_sorts. Qed.
+
+(* F1 (before fix 61831e8): the comparator read the unsorted source *)
 Theorem C18_sorted_copy_prefix_refuted :
   exists l l', Permutation l l' /\ NoDup l /\ sorted_copy_prefix l <> sorted_copy_prefix l'.
 Proof. exact sorted_copy_prefix_order_dependent. Qed.
 
-(* poolsByNamespace / poolsByServiceSelector do not depend on the map iteration order *)
+(* ---------------------------------------------------------------- the two order-parametric loops *)
 Theorem C18_by_namespace_canonical : forall o o', Permutation o o' -> by_namespace o = by_namespace o'.
 Proof. exact by_namespace_perm. Qed.
 
@@ -43,34 +75,93 @@ Theorem C18_by_namespace_prefix_refuted :
   exists o o', Permutation o o' /\ by_namespace_prefix o <> by_namespace_prefix o'.
 Proof. exact by_namespace_prefix_refuted. Qed.
 
-(* config.For is a function of its (sorted) input: no map iteration order is left in it *)
-Theorem C18_config_for_is_a_function : forall (O : Type) iter iter' (other : resources -> option O) vcfg r,
-  map_order iter -> map_order iter' -> cfg_for iter other vcfg r = cfg_for iter' other vcfg r.
-Proof. exact @cfg_for_iter_indep. Qed.
+(* config.For does not depend on the map order in the two places where the model takes it as a
+   parameter (equivalent to the two lemmas above; the other map loops are order-free by
+   construction, see the header) *)
+Theorem C18_pinning_indexes_map_order_free : forall iter iter' m fr, map_order iter -> map_order iter' ->
+  full_for iter m fr = full_for iter' m fr.
+Proof. exact full_for_iter_indep. Qed.
 
+(* ---------------------------------------------------------------- listing order *)
 (* the sorted snapshot does not depend on the listing order *)
 Theorem C18_canon_perm : forall srt r r', hsort srt -> nodup_names r -> perm_res r r' ->
   canon srt r = canon srt r'.
 Proof. exact canon_perm. Qed.
 
-(* C18: the configuration (or its rejection: [cfg_for] returns None) computed from a
-   snapshot is the same for every listing order of every kind, for every repetition (any map
-   iteration orders [iter], [iter']) and for every correct sorting algorithm *)
-Theorem C18_toconfig_deterministic :
+(* C18, listing-order clause, for the whole modelled Config (pools, pinning indexes, peers with
+   timers / node selectors / BFD and secret references, BFD profiles, communities, extras, the
+   three validators, validateConfig): any two listings of the same objects, any two sorts
+   satisfying H-sort, any two map orders in the two parametric loops give the same model value
+   or the same refusal *)
+Theorem C18_full_toconfig_deterministic : forall srt srt' iter iter' m a b,
+  hsort srt -> hsort srt' -> map_order iter -> map_order iter' -> fnodup a -> fperm a b ->
+  full_to_config srt iter m a = full_to_config srt' iter' m b.
+Proof. exact full_to_config_deterministic. Qed.
+
+(* the same for snapshots with at most 12 objects of every kind, where Go's sort IS the modelled
+   insertion sort: no premise on the sort.  ([fsmall] is not used by the proof; it states where
+   the instance applies.) *)
+Corollary C18_full_toconfig_deterministic_upto_12 : forall iter iter' m a b,
+  fsmall a -> map_order iter -> map_order iter' -> fnodup a -> fperm a b ->
+  full_to_config go_sorter iter m a = full_to_config go_sorter iter' m b.
+Proof. exact full_to_config_deterministic_isort. Qed.
+
+(* acceptance or refusal (accepted vs refused only, not which error), for every validator and
+   every modelled refusal rule incl. the BFD-echo/IPv6 rule and the duplicate-name rules *)
+Corollary C18_full_acceptance_order_independent : forall srt iter iter' m a b,
+  hsort srt -> map_order iter -> map_order iter' -> fnodup a -> fperm a b ->
+  (full_to_config srt iter m a = None <-> full_to_config srt iter' m b = None).
+Proof. exact full_acceptance_order_independent. Qed.
+
+(* older, weaker forms kept as lemmas: the non-pool part of config.For is an ARBITRARY function
+   [other] / [vcfg] of the sorted snapshot, i.e. its order-freeness is assumed *)
+Theorem C18_toconfig_deterministic_partial :
   forall (O : Type) srt srt' iter iter' (other : resources -> option O) vcfg r r',
   hsort srt -> hsort srt' -> map_order iter -> map_order iter' -> nodup_names r -> perm_res r r' ->
   to_config srt (cfg_for iter other vcfg) r = to_config srt' (cfg_for iter' other vcfg) r'.
 Proof. exact @to_config_deterministic. Qed.
 
-(* ... in particular acceptance does not depend on the listing order *)
-Corollary C18_acceptance_order_independent :
+Corollary C18_toconfig_deterministic_partial_upto_12 :
+  forall (O : Type) iter iter' (other : resources -> option O) vcfg r r',
+  rsmall r -> map_order iter -> map_order iter' -> nodup_names r -> perm_res r r' ->
+  to_config go_sorter (cfg_for iter other vcfg) r = to_config go_sorter (cfg_for iter' other vcfg) r'.
+Proof. exact @to_config_deterministic_isort. Qed.
+
+Corollary C18_acceptance_order_independent_partial :
   forall (O : Type) srt iter (other : resources -> option O) vcfg r r',
   hsort srt -> map_order iter -> nodup_names r -> perm_res r r' ->
   (to_config srt (cfg_for iter other vcfg) r = None <-> to_config srt (cfg_for iter other vcfg) r' = None).
 Proof. exact @acceptance_order_independent. Qed.
 
-(* the reconcilers: an event after which the computed configuration is equal calls no handler
-   and forces no re-sync, however many such events arrive ([ceq] = reflect.DeepEqual) *)
+(* ---------------------------------------------------------------- the reconcilers *)
+(* End to end, derived from a run and with the model's own equality (reflexive: proved, no
+   hypothesis): the first reconcile of listing [a] from the empty state calls the handler once
+   and stores the configuration; a later reconcile of ANY permuted listing [b] (any map order)
+   changes nothing - no handler call, no forced re-sync.  One later step is stated; since the
+   state is unchanged it iterates. *)
+Theorem C18_first_then_permuted_listing_no_reload : forall srt iter iter' m a b pv c h h',
+  hsort srt -> map_order iter -> map_order iter' -> fnodup a -> fperm a b ->
+  full_to_config srt iter m a = Some c -> (h = SSuccess \/ h = SReprocessAll) ->
+  let st0 := {| rs_cur := None; rs_calls := 0; rs_reloads := 0 |} in
+  let st1 := reconcile pv fconfig_eqb st0 (full_to_config srt iter m a) h in
+  rs_calls st1 = 1%nat /\ reconcile pv fconfig_eqb st1 (full_to_config srt iter' m b) h' = st1.
+Proof. exact first_then_permuted. Qed.
+
+(* the same from any state that remembers c, for any comparison reflexive on c *)
+Theorem C18_permuted_listing_never_reloads :
+  forall srt iter iter' m a b pv (ceq : fconfig -> fconfig -> bool) st c h,
+  hsort srt -> map_order iter -> map_order iter' -> fnodup a -> fperm a b ->
+  full_to_config srt iter m a = Some c -> rs_cur st = Some c -> ceq c c = true ->
+  reconcile pv ceq st (full_to_config srt iter' m b) h = st.
+Proof. exact permuted_listing_never_reloads. Qed.
+
+Theorem C18_model_equality_reflexive : forall c, fconfig_eqb c c = true.
+Proof. exact fconfig_eqb_refl. Qed.
+
+(* BY DEFINITION (one-step unfoldings of [reconcile] / [full_for]; vocabulary, not coverage):
+   an equal configuration is skipped; a refused one leaves the state; refusal happens at one of
+   the stages of the model's full_for (the model's stage order differs from Go's, only
+   accepted / refused is meaningful) *)
 Theorem C18_reconciler_skips_equal : forall (C : Type) pv (ceq : C -> C -> bool) st c h,
   rs_cur st = Some c -> ceq c c = true -> reconcile pv ceq st (Some c) h = st.
 Proof. exact @reconcile_skips_equal. Qed.
@@ -80,73 +171,39 @@ Theorem C18_unrelated_events_never_reload : forall (C : Type) pv (ceq : C -> C -
   fold_left (fun s h => reconcile pv ceq s (Some c) h) hs st = st.
 Proof. exact @reconcile_unrelated_events. Qed.
 
-(* ---- H-sort discharged for the algorithm sort.Slice runs on at most 12 elements: the exact
-   index-based model of Go's insertionSort_func with sortedCopy's comparator ([go_sorter],
-   Proofs/CfgIsortP.v) returns a sorted permutation of every list.  What remains assumed is only
-   that pdqsort (more than 12 objects of one kind) also sorts. *)
-Theorem C18_go_insertion_sort_satisfies_hsort : hsort go_sorter.
-Proof. exact go_sorter_hsort. Qed.
-
-Theorem C18_go_insertion_sort_sorts : forall A (key : A -> N) (d : A) l,
-  Permutation (go_isort key d l) l /\ StronglySorted (kle key) (go_isort key d l).
-Proof. exact @go_isort_sorts. Qed.
-
-(* ---- the WHOLE configuration (Model/CfgFull.v: pools, peers with node selectors / BFD and
-   secret references / timers, BFD profiles, communities, extras, the three validators,
-   validateConfig).  No opaque part is left: [full_to_config] is toConfig. *)
-Theorem C18_full_config_for_is_a_function : forall iter iter' m fr, map_order iter -> map_order iter' ->
-  full_for iter m fr = full_for iter' m fr.
-Proof. exact full_for_iter_indep. Qed.
-
-Theorem C18_full_toconfig_deterministic : forall srt srt' iter iter' m a b,
-  hsort srt -> hsort srt' -> map_order iter -> map_order iter' -> fnodup a -> fperm a b ->
-  full_to_config srt iter m a = full_to_config srt' iter' m b.
-Proof. exact full_to_config_deterministic. Qed.
-
-(* without any premise on the sort, for Go's insertion sort *)
-Corollary C18_full_toconfig_deterministic_insertion_sort : forall iter iter' m a b,
-  map_order iter -> map_order iter' -> fnodup a -> fperm a b ->
-  full_to_config go_sorter iter m a = full_to_config go_sorter iter' m b.
-Proof. exact full_to_config_deterministic_isort. Qed.
-
-Corollary C18_toconfig_deterministic_insertion_sort :
-  forall (O : Type) iter iter' (other : resources -> option O) vcfg r r',
-  map_order iter -> map_order iter' -> nodup_names r -> perm_res r r' ->
-  to_config go_sorter (cfg_for iter other vcfg) r = to_config go_sorter (cfg_for iter' other vcfg) r'.
-Proof. exact @to_config_deterministic_isort. Qed.
-
-(* acceptance or rejection, for every validator and every refusal rule of config.For, does not
-   depend on the listing order or on map iteration *)
-Corollary C18_full_acceptance_order_independent : forall srt iter iter' m a b,
-  hsort srt -> map_order iter -> map_order iter' -> fnodup a -> fperm a b ->
-  (full_to_config srt iter m a = None <-> full_to_config srt iter' m b = None).
-Proof. exact full_acceptance_order_independent. Qed.
-
-(* end to end: after a configuration computed from one listing is remembered, an event after
-   which the same objects are listed in any other order (and maps are iterated in any other
-   order) calls no handler and forces no re-sync; a refused snapshot never touches the state *)
-Theorem C18_permuted_listing_never_reloads :
-  forall srt iter iter' m a b pv (ceq : fconfig -> fconfig -> bool) st c h,
-  hsort srt -> map_order iter -> map_order iter' -> fnodup a -> fperm a b ->
-  full_to_config srt iter m a = Some c -> rs_cur st = Some c -> ceq c c = true ->
-  reconcile pv ceq st (full_to_config srt iter' m b) h = st.
-Proof. exact permuted_listing_never_reloads. Qed.
-
 Theorem C18_refused_listing_keeps_state :
   forall srt iter iter' m a b pv (ceq : fconfig -> fconfig -> bool) st h,
   hsort srt -> map_order iter -> map_order iter' -> fnodup a -> fperm a b ->
   full_to_config srt iter m a = None -> reconcile pv ceq st (full_to_config srt iter' m b) h = st.
 Proof. exact refused_listing_keeps_state. Qed.
 
-(* the reasons for refusal are exactly the stages of config.For *)
 Theorem C18_refusal_stages : forall iter m fr, stage_result iter m fr (full_for iter m fr).
 Proof. exact full_for_stages. Qed.
 
-(* non-vacuity: three advertisements listed [b;c;a] and [a;b;c] are sorted to the same list
-   by the model's sort, four pools pinned to one namespace give one list whatever the order *)
+(* ---------------------------------------------------------------- non-vacuity *)
 Example C18_nonvacuous :
   ksort (fun x => x) [2; 3; 1] = [1; 2; 3] /\ ksort (fun x => x) [1; 2; 3] = [1; 2; 3] /\
   by_namespace [mini_pool 3 [7]; mini_pool 1 [7; 8]; mini_pool 2 [7]] =
   by_namespace [mini_pool 2 [7]; mini_pool 3 [7]; mini_pool 1 [7; 8]] /\
   by_namespace [mini_pool 3 [7]; mini_pool 1 [7; 8]; mini_pool 2 [7]] = [(7, [1; 2; 3]); (8, [1])].
 Proof. vm_compute. repeat split. Qed.
+
+(* the whole pipeline: three pools pinned to namespace 7 listed in two orders, Go's insertion
+   sort, map iterated forwards / backwards: accepted, same pools, same pinning index *)
+Definition nv_pool (n : N) (a : addr) (ns : list N) : pool_cr :=
+  {| pl_name := n; pl_labels := []; pl_addrs := [a]; pl_avoid := false; pl_auto := true;
+     pl_alloc := Some {| al_prio := 0; al_nss := ns; al_nssels := []; al_svcsels := [] |} |}.
+Definition nv_a : fresources :=
+  {| f_pools := [nv_pool 3 (ACidr (Build_prefix F4 256 24)) [7]; nv_pool 1 (ACidr (Build_prefix F4 512 24)) [7; 8];
+                 nv_pool 2 (ARange (V4 3) (V4 17)) [7]];
+     f_l2 := []; f_bgp := []; f_nodes := []; f_nss := []; f_peers := []; f_bfds := []; f_comms := [];
+     f_secrets := []; f_extras := 0 |}.
+Definition nv_b : fresources :=
+  {| f_pools := rev (f_pools nv_a);
+     f_l2 := []; f_bgp := []; f_nodes := []; f_nss := []; f_peers := []; f_bfds := []; f_comms := [];
+     f_secrets := []; f_extras := 0 |}.
+Example C18_nonvacuous_full :
+  full_to_config go_sorter (fun l => l) VNone nv_a = full_to_config go_sorter (@rev pool) VNone nv_b /\
+  option_map (fun c => (map p_name (po_pools (fc_pools c)), po_byns (fc_pools c)))
+             (full_to_config go_sorter (fun l => l) VNone nv_a) = Some ([1; 2; 3], [(7, [1; 2; 3]); (8, [1])]).
+Proof. vm_compute. split; reflexivity. Qed.
